@@ -348,7 +348,8 @@ def plan_c01(prop, tier, seed, t0):
 def plan_c02(prop, tier, seed, t0):
     over = dict(AckRefs={1, 2, 99}, ModSecs={0}, Advances={1, 2}, MaxOps=6, MaxNow=6)
     return core_check(prop, tier, seed, t0, over, explore=[("data", 48, 1500)],
-                      extra_scenarios=lambda quick, sd: stream_ctrl_scenarios(sd, quick),
+                      extra_scenarios=lambda quick, sd: stream_ctrl_scenarios(sd, quick)
+                      + cancel_scenarios(sd, kinds={"Pull", "Ack"}, quick=quick),
                       thorough={"mc": dict(MaxOps=7, MaxMsgs=3, AckRefs={1, 2, 3, 99})})
 
 
@@ -483,8 +484,24 @@ def plan_c05(prop, tier, seed, t0):
 def plan_c08(prop, tier, seed, t0):
     over = dict(SubNames={S1, S2}, ModSecs={0}, AckRefs={1}, Advances={2}, PubSizes={1, 2}, PullMaxes={1, 2},
                 OpKinds={"CreateTopic", "CreateSub", "Publish", "Pull", "ModAck", "Advance"}, MaxOps=7, MaxMsgs=4)
+    def extra(quick, sd):
+        # large Publish requests (beyond 100 and beyond 1000 messages) next to a concurrent small
+        # publisher: one request = one contiguous block of increasing ids, delivered in that order
+        out = []
+        for i, (n, small) in enumerate([(101, 3), (130, 2)] if quick else [(101, 3), (130, 2), (250, 3), (100, 1), (300, 5), (1001, 2)]):
+            for order in (0, 1):
+                a = start("big", 2, op="Publish", topic=T1, msgs=[{"p": "bulk:%d" % n}])
+                b = start("small", 3, op="Publish", topic=T1, msgs=[{"p": "s%d-%d" % (i, j)} for j in range(small)])
+                steps = [call(1, op="CreateTopic", name=T1), call(1, op="CreateSub", name=S1, topic=T1, ack=10),
+                         call(1, op="CreateSub", name=S2, topic=T1, ack=10)]
+                steps += ([a, b] if order == 0 else [b, a]) + [{"do": "waitall"}]
+                steps += [call(4, op="Pull", sub=S1, max=1000, ri=True), call(4, op="Pull", sub=S1, max=1000, ri=True),
+                          call(5, op="Pull", sub=S2, max=7, ri=True), call(5, op="Pull", sub=S2, max=1000, ri=True),
+                          {"do": "drain", "c": 9}]
+                out.append(scn("c08-big-%d-%d" % (i, order), steps, seed=sd + i, cap=(16, 1, 2)[i % 3]))
+        return out
     return core_check(prop, tier, seed, t0, over, explore=[("data", 64, 3000), ("mixed", 16, 1000), ("mt:pubrace", 300, 20000)], caps=(16, 1, 2),
-                      thorough={"mc": dict(MaxOps=8, MaxMsgs=5)}, turns=True)
+                      extra_scenarios=extra, thorough={"mc": dict(MaxOps=8, MaxMsgs=5)}, turns=True)
 
 
 def plan_c09(prop, tier, seed, t0):
@@ -494,7 +511,8 @@ def plan_c09(prop, tier, seed, t0):
     def extra(quick, sd):
         # the same payload classes through the HTTP push path
         import plan_push
-        return [s for s in plan_push.c14_scenarios([], sd, quick, call, scn) if s["id"] == "c14-payloads"]
+        return [s for s in plan_push.c14_scenarios([], sd, quick, call, scn) if s["id"] == "c14-payloads"] \
+            + inflight_topic_delete_scenarios(sd, quick)
     return core_check(prop, tier, seed, t0, over, special=True, explore=[("mixed", 32, 1000)],
                       scen={"quick": 200, "thorough": 3000}, extra_scenarios=extra,
                       thorough={"mc": dict(MaxOps=8, MaxMsgs=4)})
@@ -506,7 +524,7 @@ def plan_c10(prop, tier, seed, t0):
                 OpKinds={"CreateTopic", "DeleteTopic", "CreateSub", "DeleteSub", "GetTopic", "GetSub", "Publish", "Pull", "Ack", "ModAck"},
                 MaxOps=5, MaxMsgs=1)
     return core_check(prop, tier, seed, t0, over, explore=[("churn", 64, 3000), ("mt:churnrace", 300, 20000), ("mt:cdrace", 300, 20000)],
-                      extra_scenarios=lambda quick, sd: inflight_delete_scenarios(sd, quick),
+                      extra_scenarios=lambda quick, sd: inflight_delete_scenarios(sd, quick) + inflight_topic_delete_scenarios(sd, quick),
                       thorough={"mc": dict(MaxOps=6)}, turns=True)
 
 
@@ -517,7 +535,7 @@ def plan_c11(prop, tier, seed, t0):
                 MaxOps=6, MaxMsgs=2)
     return core_check(prop, tier, seed, t0, over, explore=[("churn", 64, 3000), ("mt:churnrace", 300, 20000), ("mt:cdrace", 300, 20000)],
                       extra_scenarios=lambda quick, sd: cancel_scenarios(sd, kinds={"DeleteSub", "DeleteTopic", "CreateSub"}, quick=quick)
-                      + inflight_delete_scenarios(sd, quick),
+                      + inflight_delete_scenarios(sd, quick) + inflight_topic_delete_scenarios(sd, quick),
                       thorough={"mc": dict(MaxOps=7)}, turns=True)
 
 
@@ -540,6 +558,24 @@ def plan_c13(prop, tier, seed, t0):
             steps.append({"do": "walk", "c": 1, "kind": "subs", "arg": "projects/p1", "size": size})
             steps.append({"do": "walk", "c": 1, "kind": "topicsubs", "arg": "projects/p1/topics/t10", "size": size})
             steps.append({"do": "walk", "c": 1, "kind": "topics", "arg": "projects/p2", "size": size})
+            # deletions in the middle of the creation order (first, middle, last-but-one), listing
+            # after each; then the deleted names are created again (they go to the END of the order)
+            m = min(n, 40)
+            for victim in (0, m // 2, m - 2, 1):
+                if 0 <= victim < m and m >= 3:
+                    steps.append({"do": "call", "c": 1, "call": {"op": "DeleteSub", "name": "projects/p1/subscriptions/s%d" % (victim + 10)}})
+                    if victim != 0:     # t10 carries the subscriptions
+                        steps.append({"do": "call", "c": 1, "call": {"op": "DeleteTopic", "name": "projects/p1/topics/t%d" % (victim + 10)}})
+                    steps.append({"do": "walk", "c": 1, "kind": "topics", "arg": "projects/p1", "size": size})
+                    steps.append({"do": "walk", "c": 1, "kind": "subs", "arg": "projects/p1", "size": size})
+                    steps.append({"do": "walk", "c": 1, "kind": "topicsubs", "arg": "projects/p1/topics/t10", "size": size})
+            if m >= 3:
+                steps.append({"do": "call", "c": 1, "call": {"op": "CreateTopic", "name": "projects/p1/topics/t%d" % (m // 2 + 10)}})
+                steps.append({"do": "call", "c": 1, "call": {"op": "CreateSub", "name": "projects/p1/subscriptions/s10",
+                                                            "topic": "projects/p1/topics/t10", "ack": 10}})
+                steps.append({"do": "walk", "c": 1, "kind": "topics", "arg": "projects/p1", "size": size})
+                steps.append({"do": "walk", "c": 1, "kind": "subs", "arg": "projects/p1", "size": size})
+                steps.append({"do": "walk", "c": 1, "kind": "topicsubs", "arg": "projects/p1/topics/t10", "size": size})
             proj = V.proj_map()
             for k in range(n):
                 proj["projects/p1/topics/t%d" % (k + 10)] = "p1"
@@ -764,6 +800,44 @@ def inflight_delete_scenarios(seed, quick):
                   call(5, op="ListTopicSubs", topic=T1, size=0, token=""),
                   call(5, op="Publish", topic=T1, msgs=[{"p": "y%d" % k}]), {"do": "drain", "c": 9}]
         out.append(scn("inflight-del-%d" % k, steps, seed=seed * 100 + k, cap=cap))
+    return out
+
+
+def inflight_topic_delete_scenarios(seed, quick):
+    """A DeleteTopic is held at the head of the topic actor's turn (the actor is gated) while requests
+    that looked the topic up BEFORE the deletion queue up behind it: a publish, a DeleteSubscription
+    of one of its subscriptions (whose remove request reaches the deleted topic), a CreateSubscription
+    (whose attach does), a listing.  Then everything is released and probed."""
+    out = []
+    S3 = "projects/p1/subscriptions/s3"
+    for k in range(8 if quick else 48):
+        cap = (16, 1, 2)[k % 3]
+        steps = [call(1, op="CreateTopic", name=T1), call(1, op="CreateSub", name=S1, topic=T1, ack=10),
+                 call(1, op="CreateSub", name=S2, topic=T1, ack=10),
+                 call(1, op="Publish", topic=T1, msgs=[{"p": "a%d" % k}, {"p": "b%d" % k}])]
+        if k % 2:
+            steps.append(call(1, op="Pull", sub=S1, max=1, ri=True))
+        steps += [{"do": "gate", "name": "t.turn", "turns": 0}, start("dt", 2, op="DeleteTopic", name=T1), {"do": "settle"}]
+        mid = [start("pb", 3, op="Publish", topic=T1, msgs=[{"p": "late%d-1" % k}, {"p": "late%d-2" % k}]),
+               start("ds", 4, op="DeleteSub", name=S1),
+               start("cs", 5, op="CreateSub", name=S3, topic=T1, ack=10),
+               start("ls", 6, op="ListTopicSubs", topic=T1, size=0, token=""),
+               start("pb2", 7, op="Publish", topic=T1, msgs=[{"p": "later%d" % k}])]
+        combos = [[1], [0], [2], [3], [1, 0], [2, 1], [0, 3, 1], [0, 1, 2, 3, 4], [4, 1], [3, 2], [1, 2, 3], [2, 0, 4]]
+        chosen = [mid[j] for j in combos[k % len(combos)]]
+        for m in chosen:
+            steps += [m, {"do": "yield", "n": 1 + k % 3}]
+        steps += [{"do": "settle"}, {"do": "gate", "name": "t.turn", "turns": -1}, {"do": "waitall"},
+                  call(8, op="GetSub", name=S1), call(8, op="GetSub", name=S2), call(8, op="GetSub", name=S3),
+                  call(8, op="ListSubs", project="projects/p1", size=0, token=""),
+                  call(8, op="DeleteSub", name=S1),
+                  call(8, op="Pull", sub=S2, max=10, ri=True),
+                  call(8, op="CreateTopic", name=T1), call(8, op="CreateSub", name=S1, topic=T1, ack=10),
+                  call(8, op="Publish", topic=T1, msgs=[{"p": "new%d" % k}]),
+                  call(8, op="ListTopicSubs", topic=T1, size=0, token=""),
+                  call(8, op="Pull", sub=S1, max=10, ri=True), call(8, op="Pull", sub=S2, max=10, ri=True),
+                  {"do": "drain", "c": 9}]
+        out.append(scn("inflight-tdel-%d" % k, steps, seed=seed * 100 + k, cap=cap))
     return out
 
 
